@@ -1,3 +1,3 @@
 import VotelibDriver.Loop
 import VotelibDriver.C15
-def main : IO Unit := VL.Drv.mainLoop [VL.Drv.C15.handle]
+def main : IO Unit := VL.Drv.mainLoop [VL.Drv.C15.handleAll]
